@@ -279,6 +279,10 @@ def run(prog: Program, rep: Report, tier: str) -> None:
                 rest = disp - cadv * NF.atom(vel)
                 other_vel = "Vadv" if vel == "Uadv" else "Uadv"
                 rep.check("R01.2", fi.qual, f"{label}: no cross-axis or constant term", other_vel not in rest.atoms() and (diff or rest.is_zero()), what_bad=f"unexpected displacement terms {rest}", what_ok="none" if not diff else f"diffusive part {rest}", loc=fi.loc())
+    from ..share import share
+
+    share(prog, rep, "C17", ("R17.1", "R17.2"), "R01.7", "the stage positions of a scheme are clipped to the particle's own axis limits before the velocity is sampled there", 4, only=lambda o: o.func.startswith("tracker.") or "tracker." in o.construct)
+
 
 
 from ..selftest import Mut  # noqa: E402
